@@ -13,7 +13,7 @@ use uom::si::length::meter;
 pub fn def() -> PropDef {
     PropDef {
         id: "C16",
-        rule: "inputs: helices with centre within +-3 m, radius 0.03-5 m, any phase, pitch 0 / +-subnormal / +-1e-17..1e2 m (one class per decade, equal weight), and points (a) anywhere in the drift volume, (b) within 1 cm of the helix with the z offset scaled by min(|h|,1) so that tiny pitches still give interior parameters, (c) bit-exactly on the helix axis (axis on the beam line or on the x axis), up to 3 pitches from z0, (d) sweeps of 4-40 neighbouring points around one helix asked one after the other on one thread (eccentricity 0.1-30; through the half-plane where the root of Kepler's equation changes sign); direct call of the closest-point routine through the hook with the callers' tolerance and iteration limit; plus t_inner / t_outer of fitted tracks against the cluster's innermost / outermost point (hook-free on clustered helices; and one group of every point family fitted through the Cluster hook, in given or reversed order, optionally with a stray hit at the inner or outer end shifted by up to 150 mrad and 3 cm; only point sets that are connected under the 3 cm linkage, as every Cluster of the library is), and the per-track parameters of a primary vertex against the vertex position (fitted tracks; hook-built sets of 2-6 tracks through or within 2 cm of a common point 0-30 cm off the beam axis, each circle also passing within 7 cm of the axis; the track sets of C14); oracle: t is not NaN and in [-pi, pi]; if strictly inside, dist(point, at(t)) <= min over s in [-pi, pi] of dist(point, at(s)) + 1e-9 m, the minimum found by a 20001-point grid with golden-section refinement around the best cells and both end points (at = the library's Track::at, so only the choice of t is judged; both distances are exact only to a few ulps of the helix's largest parameter, so 16 eps x max(that size, the two distances) is added to the 1e-9 m - 3.6e-14 m for a 10 m helix, decisive only for the 1e14 m helices that fit straight chords and for vertex fits of flat tracks that end 4e9 m away); non-trivial = t strictly inside (-pi, pi); distinct by (pitch decade, case hash)",
+        rule: "inputs: helices with centre within +-3 m, radius 0.03-5 m, any phase, pitch 0 / +-subnormal / +-1e-17..1e2 m (one class per decade, equal weight), and points (a) anywhere in the drift volume, (b) within 1 cm of the helix with the z offset scaled by min(|h|,1) so that tiny pitches still give interior parameters, (c) bit-exactly on the helix axis (axis on the beam line or on the x axis), up to 3 pitches from z0, (c2) on the radial line through the helix point of parameter s (s = 0 and +-pi: along and opposite to phi0), on the curve or up to 1 cm off it, (d) sweeps of 4-40 neighbouring points around one helix asked one after the other on one thread (eccentricity 0.1-30; through the half-plane where the root of Kepler's equation changes sign); direct call of the closest-point routine through the hook with the callers' tolerance and iteration limit; plus t_inner / t_outer of fitted tracks against the cluster's innermost / outermost point (hook-free on clustered helices; and one group of every point family fitted through the Cluster hook, in given or reversed order, optionally with a stray hit at the inner or outer end shifted by up to 150 mrad and 3 cm; only point sets that are connected under the 3 cm linkage, as every Cluster of the library is), and the per-track parameters of a primary vertex against the vertex position (fitted tracks; hook-built sets of 2-6 tracks through or within 2 cm of a common point 0-30 cm off the beam axis, each circle also passing within 7 cm of the axis; the track sets of C14); oracle: t is not NaN and in [-pi, pi]; if strictly inside, dist(point, at(t)) <= min over s in [-pi, pi] of dist(point, at(s)) + 1e-9 m, the minimum found by a 20001-point grid with golden-section refinement around the best cells and both end points (at = the library's Track::at, so only the choice of t is judged; both distances are exact only to a few ulps of the helix's largest parameter, so 16 eps x max(that size, the two distances) is added to the 1e-9 m - 3.6e-14 m for a 10 m helix, decisive only for the 1e14 m helices that fit straight chords and for vertex fits of flat tracks that end 4e9 m away); non-trivial = t strictly inside (-pi, pi); distinct by (pitch decade, case hash)",
         assumptions: &["closest_t is reached through reconstruction::verif_hooks::closest_t (same tolerance f64::EPSILON and 20 iterations as every caller)"],
         run,
         replay,
@@ -93,7 +93,10 @@ pub struct DirectCase {
     /// 0: as above; 1: helix axis moved onto the beam line and the point put on
     /// it (x = y = 0 exactly); 2: helix axis moved to (|x0|, 0) and the point put
     /// on it at phi = 0 (bit-exact as well); the point's z is `free[2]` scaled
-    /// to +-3 pitches around z0
+    /// to +-3 pitches around z0; 3: the point lies on the radial line through
+    /// the helix point of parameter `s` (same azimuth around the axis to
+    /// rounding: s = 0 and +-pi put it along and opposite to phi0), at radius
+    /// R + off[0] (one case in four: exactly on the curve), z as for `near`
     #[serde(default)]
     pub on_axis: u8,
     /// the same helix written with the opposite radius and phi0 + pi (D7)
@@ -121,7 +124,11 @@ fn direct(c: &DirectCase, ev: &mut Ev) -> Outcome {
         _ => {}
     }
     let t = track_of(&h, 0.0, 0.0);
-    let p = if c.on_axis != 0 {
+    let p = if c.on_axis == 3 {
+        let a = h[4] + c.s.0;
+        let rr = h[3] + if c.off[1].0 > 0.005 { 0.0 } else { c.off[0].0 * if c.off[2].0 > 0.0 { 1.0 } else { 1e-7 } };
+        (h[0] + rr * a.cos(), h[1] + rr * a.sin(), h[2] + h[5] * c.s.0 / (2.0 * PI) + c.off[2].0 * h[5].abs().min(1.0))
+    } else if c.on_axis != 0 {
         let dz = c.free[2].0 / 1.152 * 3.0 * if h[5].is_finite() && h[5].abs() < 1.0 { h[5].abs() } else { 1.0 };
         (h[0], 0.0, h[2] + dz)
     } else if c.near {
@@ -135,7 +142,9 @@ fn direct(c: &DirectCase, ev: &mut Ev) -> Outcome {
     let tt = no_panic("closest_t", || rh::closest_t(&t, point))?;
     let dec = pitch_decade(h[5]);
     let interior = judge(&t, (px, py, pz), tt, "closest_t")?;
-    if c.on_axis != 0 {
+    if c.on_axis == 3 {
+        ev.label(if c.s.0.abs() == PI { "point-on-the-radial-line-opposite-phi0" } else if c.s.0 == 0.0 { "point-on-the-radial-line-at-phi0" } else { "point-on-a-radial-line" });
+    } else if c.on_axis != 0 {
         ev.label("point-exactly-on-the-helix-axis");
     }
     if interior {
@@ -150,7 +159,7 @@ fn direct(c: &DirectCase, ev: &mut Ev) -> Outcome {
 
 fn direct_case() -> impl Strategy<Value = DirectCase> {
     let off = || prop_oneof![10 => -0.01f64..=0.01, 1 => Just(0.0f64)];
-    (helix_params(), prop_oneof![10 => -3.0f64..=3.0, 1 => Just(0.0f64), 1 => Just(PI), 1 => Just(-PI)], (off(), off(), off()), prop::bool::weighted(0.8), (0.1092f64..=0.182, 0.0..(2.0 * PI), -1.152f64..=1.152), prop_oneof![18 => Just(0u8), 1 => Just(1u8), 1 => Just(2u8)], prop::bool::weighted(0.15))
+    (helix_params(), prop_oneof![10 => -3.0f64..=3.0, 1 => Just(0.0f64), 2 => Just(PI), 2 => Just(-PI)], (off(), off(), off()), prop::bool::weighted(0.8), (0.1092f64..=0.182, 0.0..(2.0 * PI), -1.152f64..=1.152), prop_oneof![18 => Just(0u8), 1 => Just(1u8), 1 => Just(2u8), 4 => Just(3u8)], prop::bool::weighted(0.15))
         .prop_map(|(helix, s, off, near, free, on_axis, negative_radius)| DirectCase { helix: fx6(helix), s: Fx(s), off: [Fx(off.0), Fx(off.1), Fx(off.2)], near, free: [Fx(free.0), Fx(free.1), Fx(free.2)], on_axis, negative_radius })
 }
 
